@@ -8,13 +8,17 @@ import (
 	"net/http"
 	"net/url"
 
+	"encoding/json"
 	"github.com/google/martian/v3"
+
 	_ "github.com/google/martian/v3/fifo"
 	_ "github.com/google/martian/v3/header"
+	_ "github.com/google/martian/v3/martianurl"
 	_ "github.com/google/martian/v3/method"
 	_ "github.com/google/martian/v3/pingback"
 	_ "github.com/google/martian/v3/querystring"
 	_ "github.com/google/martian/v3/status"
+	"github.com/google/martian/v3/verify"
 	"github.com/google/martian/v3/zzverif/vf"
 )
 
@@ -224,6 +228,63 @@ func VerifC13History() {
 		vf.WatchOff()
 		vf.Assert(nq == wantReq, "repeated-request-query:one-error-per-unmet-expectation-since-reset")
 		vf.Assert(nr == wantRes, "repeated-response-query:one-error-per-unmet-expectation-since-reset")
+	}
+	vf.Reach("done")
+}
+
+// VerifC13Endpoint: the same one-error-per-unmet-expectation answer through the verification
+// endpoint (verify.Handler, as the proxy binary mounts it): the JSON it returns lists exactly
+// the errors the tree reports, also for a verifier whose single error message spans several
+// lines (a URL verifier names every mismatching part on its own line).
+func VerifC13Endpoint() {
+	m := NewModifier()
+	cfg := `{"fifo.Group": {"modifiers": [{"url.Verifier": {"scheme": "https", "host": "want.example", "path": "/w"}}, ` + zzhv + `, ` + zzsv + `]}}`
+	vf.Assert(zzpost(m, cfg) == 200, "configuration-accepted")
+	wantReq, wantRes := 0, 0
+	for i, n := 0, vf.Choice("exchanges", 3); i < n; i++ {
+		exp := []string{"1", "0"}[vf.Choice("x-exp", 2)] // (the message text goes into the JSON: kept concrete)
+		u := &url.URL{Scheme: "http", Host: "h", Path: "/"}
+		urlOK := vf.Choice("url-matches", 3)
+		switch urlOK {
+		case 1:
+			u = &url.URL{Scheme: "https", Host: "want.example", Path: "/w"}
+		case 2:
+			u = &url.URL{Scheme: "https", Host: "want.example", Path: "/other"}
+		}
+		req := &http.Request{Method: "GET", URL: u, Host: u.Host, Proto: "HTTP/1.1", ProtoMajor: 1, ProtoMinor: 1,
+			Header: http.Header{"X-Exp": {exp}}, Body: ioutil.NopCloser(bytes.NewReader(nil))}
+		_, remove, err := martian.TestContext(req, nil, nil)
+		vf.Assert(err == nil, "test-context")
+		status := []int{200, 500}[vf.Choice("status", 2)]
+		res := &http.Response{StatusCode: status, Request: req, Proto: "HTTP/1.1", ProtoMajor: 1, ProtoMinor: 1,
+			Header: http.Header{"X-Exp": {"1"}}, Body: ioutil.NopCloser(bytes.NewReader(nil))}
+		m.ModifyRequest(req)
+		m.ModifyResponse(res)
+		remove()
+		if urlOK != 1 {
+			wantReq++
+		}
+		if exp != "1" {
+			wantReq++
+		}
+		if status != 200 {
+			wantRes++
+		}
+	}
+	h := verify.NewHandler()
+	h.SetRequestVerifier(m)
+	h.SetResponseVerifier(m)
+	for k := 0; k < 2; k++ { // asking twice gives the same answer
+		w := &zzrw{h: http.Header{}, status: 200}
+		h.ServeHTTP(w, &http.Request{Method: "GET", URL: &url.URL{Path: "/verify"}, Header: http.Header{}})
+		var got struct {
+			Errors []struct {
+				Message string `json:"message"`
+			} `json:"errors"`
+		}
+		vf.Assert(w.status == 200 && json.Unmarshal(w.body.Bytes(), &got) == nil, "endpoint-answers-with-json")
+		vf.Assert(len(got.Errors) == wantReq+wantRes, "endpoint:one-error-per-unmet-expectation-since-reset")
+		vf.Assert(zzflatCount(m.VerifyRequests(), "endpoint-request-query") == wantReq && zzflatCount(m.VerifyResponses(), "endpoint-response-query") == wantRes, "endpoint:tree-agrees")
 	}
 	vf.Reach("done")
 }
